@@ -1095,6 +1095,7 @@ func centroidHandler(raw json.RawMessage) map[string]any {
 		Lines [][][]int
 		Pts   [][]int
 		Off   []int
+		Gaps  []int
 	}
 	must(json.Unmarshal(raw, &c))
 	salt := 0
@@ -1182,7 +1183,15 @@ func centroidHandler(raw json.RawMessage) map[string]any {
 		var pts []*geom.Point
 		mp := geom.NewMultiPoint(layout)
 		var flat []float64
+		gap := func(j int) {
+			if j < len(c.Gaps) && c.Gaps[j] == 1 {
+				if err := mp.Push(geom.NewPointEmpty(layout)); err != nil {
+					panic("harness: " + err.Error())
+				}
+			}
+		}
 		for i, p := range shiftRing(c.Pts, c.Off) {
+			gap(i)
 			pt := geom.NewPoint(layout)
 			if _, err := pt.SetCoords(xyExtra(p, stride, i)); err != nil {
 				panic("harness: " + err.Error())
@@ -1193,6 +1202,7 @@ func centroidHandler(raw json.RawMessage) map[string]any {
 			}
 			flat = append(flat, xyExtra(p, stride, i)...)
 		}
+		gap(len(c.Pts))
 		res = append(res,
 			cenOut(func() geom.Coord { return xy.PointsCentroid(pts[0], pts[1:]...) }),
 			cenOut(func() geom.Coord { return xy.MultiPointCentroid(mp) }),
